@@ -143,7 +143,7 @@ def pre_build(ctx):
         theirs = _gdb_members(exe, typ)
         if not theirs:
             bad.append('%s: gdb printed no members' % typ)
-        elif ours != theirs:
+        elif sorted(ours, key=lambda t: t[1]) != sorted(theirs, key=lambda t: t[1]):
             bad.append('%s: extractor list %s differs from debug info %s' % (
                 typ, [o for o in ours if o not in theirs][:4], [t for t in theirs if t not in ours][:4]))
         info[lname] = len(theirs)
